@@ -47,14 +47,25 @@ CHECKS = {
         "against Member + a CPython model of the conditions; every TLC-generated (V, condition) is replayed through "
         "stacked_scopes.constrain_value with real Constraint objects (and their invert()) and as a generated if/else or match "
         "function through the visitor; observations adjudicated by TLC (NarrowingTrace.tla), which first validates the "
-        "condition model against real CPython on all 43 objects",
+        "condition model against real CPython on all 43 objects; ConstraintFlow.tla (flow-level slice: the collecting-phase scope "
+        "machine with fake definition nodes carrying a constraint and the definitions it restricts, the origin guard of "
+        "_add_single_constraint, combine_subscopes, two visits of loop bodies, saved conditions, walrus, and / or operands, "
+        "constraint-object identity and the resolution cache) against a small-step CPython execution of the same function; "
+        "ConstraintFlowTrace.tla validates the execution model against recorded CPython runs first, then judges the real "
+        "inferred type at every read",
         text="Model checking: 346 depth-1 (+267 depth-2) type terms x ~170 atomic conditions of 15 kinds + not/and/or and match "
         "patterns, both polarities (11k states quick, 106k thorough); exhaustive replay (24k / 202k real observations, drift "
-        "0), depth-2 by TLC simulation; six named deviation classes stated on the lost object (known_findings.jsonl).",
+        "0), depth-2 by TLC simulation; flow-level slice: 10.7k (quick) / 308k (thorough) functions over the tested variable, a "
+        "saved-condition variable and opaque flags (<=5-6 statements) model-checked for FlowN1 (no object seen by a concrete run "
+        "is lost) / FlowN2 (nothing outside the reaching assignments and the tested types) and replayed through the visitor and "
+        "CPython for every flag choice (15.7k reads, 56.6k runs in quick, drift 0); seven named deviation classes stated on the "
+        "lost object (known_findings.jsonl).",
         design="2/C02",
         note=TRUSTED + " == / != / in / value patterns quantify only over type-respecting equality, as the property says; two "
         "gradual-typing leniencies are excluded from N1 for TypeIs against a parametrised type; sequence/mapping/class-subpattern "
-        "match patterns, comparison predicates other than len, TypedDict/Callable/TypeVar/Annotated values are not covered.",
+        "match patterns, ordering comparisons other than `x <op> numeric literal`, TypedDict/Callable/TypeVar/Annotated values are not "
+        "covered; flow slice: one narrowed variable, one saved-condition variable, no break / continue / try / for, no attribute "
+        "/ subscript targets.",
     ),
     "C03": dict(
         technique="TLA+ specs Values.tla (object/type universe, Member relation) + Assign.tla (transcription of the can_assign "
@@ -163,20 +174,25 @@ CHECKS = {
     "C08": dict(
         technique="TLA+ state machine Overloads.tla (two-pass loop of OverloadedSignature.check_call with any/union/union+any "
         "bookkeeping, binder, decompose_union, _unite_rets) model-checked by TLC against the declarative RefClause (first "
-        "accepting overload on concrete classes; union argument = every member; Any argument = some unknown class); every "
+        "accepting overload on ground types; union argument = every member's own call; an Any-bearing member (Any, List[Any]) = some "
+        "unknown ground type, and a member call whose unknown part can select different returns is Any; the Any-used bookkeeping "
+        "of decompose_union / check_call_with_bound_args is part of the machine); every "
         "TLC-enumerated/simulated (overload set, call) is realised as @overload stubs + reveal_type(f(args)), checked by the real "
         "visitor, and the verdict, revealed type, second-pass step classification and real CPython binding of every overload "
         "are adjudicated by TLC (OverloadsTrace.tla)",
         text="Model checking: TLC proves the machine satisfies the property for every overload set of 2-3 signatures (4 with <=1 "
-        "parameter) over {int,bool,str,None,float,object,Any,unions}, parameters positional-or-keyword/keyword-only with/"
+        "parameter) over {int,bool,str,None,float,object,Any,List[int|str|Any],Literal[1|2|'a'],enum members, unions incl. Any-bearing "
+        "members}, parameters positional-or-keyword/keyword-only with/"
         "without defaults, and every call of <=2 positional/keyword arguments with at most one union argument; one named "
         "deviation class (known_findings.jsonl), everything else must hold. The real checker is bound to the model by "
         "replaying the enumerated cases (quick: all; thorough: 1 in 2-6 overload sets per slice) plus TLC simulation of 2-4 "
-        "overloads, with TLC judging every real result against RefClause and comparing the real loop's per-overload steps.",
+        "overloads, with TLC judging every real result against RefClause and comparing the real loop's per-overload step classes "
+        "for every replayed call (1.2M states, 114k cases replayed in quick; 12M / 500k thorough).",
         design="2/C08",
         note=TRUSTED + " Assignability inside the oracle is nominal subtyping over six builtin classes plus int->float; the binder "
         "part of the oracle is checked against real CPython calls on every observation. Second-pass steps are observed by "
-        "wrapping Signature.check_call_preprocessed in the harness process.",
+        "wrapping Signature.check_call_preprocessed in the harness process. List element types are restricted to int / str (variance "
+        "not judged); TLC -coverage is replaced by printed branch counts (the Members table exhausts its cost model).",
     ),
     "C09": dict(
         technique="TLA+ specs Scopes.tla (FunctionScope set/get_local/subscope/loop_scope/suppressing_subscope/combine + what the "
@@ -397,13 +413,19 @@ CHECKS = {
         "checked by NameCheckVisitor with Evaluator.evaluate wrapped, each observation adjudicated by TLC (TypeEvalTrace.tla)",
         text="Model checking: for every body of <=3 lines/1 if/2-atom conditions and <=4 lines/2 ifs over the tier's atom set x "
         "signatures x call shapes x argument types (quick ~3e5, thorough ~4.2e6 states, plus simulation over the full grammar) "
-        "the implementation model equals the documented per-member evaluation or falls in one of six named deviation classes; "
+        "the implementation model equals the documented per-member evaluation or falls in a named deviation class; version / "
+        "platform conditions (all six operators x tuples of length 1..5 around the running version, ill-typed and non-tuple "
+        "right-hand sides, sys.version_info[i], platform ==, !=, in, startswith) and comparison conditions (literals incl. bool "
+        "and enum members; in, chained, reversed and bare expressions must be rejected at the definition) are enumerated as "
+        "probes and inside generated bodies (7e5 states, 1.7k probes + 6k bodies replayed in quick); "
         "the argument-kind predicates are the documented ones for every signature x call shape; the real checker is bound by "
         "replay (2e4 quick / 3e5 thorough cases judged by TLC, drift 0).",
         design="2/C20",
         note=TRUSTED + " The oracle is written from docs/type_evaluation.md on the atoms Literal[1], Literal[2], Literal['x'], "
         "Literal['y'], None, int, str, Any; CPython for sys.version_info / sys.platform (recorded and checked against the "
-        "oracle). Action coverage comes from a generator-only run.",
+        "oracle; Python's tuple comparison is written in TLA+ and validated per observation). Validity is three-valued (valid / "
+        "invalid / unspecified); the result of calling a rejected evaluator is unspecified and compared with the model as drift "
+        "only. Action coverage comes from a generator-only run.",
     ),
 }
 
